@@ -6,7 +6,8 @@ Grammars are values of `G` (generated from the Python source by translator/gen.p
 * default whitespace characters are blank, tab and carriage return (the setup functions remove "\n");
   every element skips them — and `#…` comments, registered with `document.ignore(pythonStyleComment)` —
   before it matches; inside an (adjacent) `Combine` nothing is skipped;
-* `Word` is maximal munch, `Literal` an exact prefix match (no keyword boundary), `|` is ordered choice
+* `Word` is maximal munch, `Literal` an exact prefix match (no keyword boundary), `Keyword` a prefix match that is
+  not followed by one of its identifier characters, `|` is ordered choice
   (`MatchFirst`) that backtracks to the start of the alternative, `Optional`/`ZeroOrMore`/`OneOrMore` are greedy;
 * `LineEnd` matches "\n" or (once) the end of the input, `StringEnd` the end of the input;
 * results are nested lists of strings (`Tree`), built like pyparsing's `asList()`.
@@ -20,6 +21,7 @@ deriving Repr, Inhabited
 
 inductive G
   | lit (s : List Char)                    -- Literal
+  | kw (s ident : List Char)               -- Keyword(s, ident_chars): not followed by an identifier character
   | word (init body : List Char)           -- Word(initChars, bodyChars)
   | white                                  -- White()
   | lineEnd | stringStart | stringEnd
@@ -79,6 +81,16 @@ def run (env : Env) : Nat → Ctx → G → Pos → Option (Pos × List Tree)
       if p1.past then none else
       match stripPrefix s p1.rest with
       | some r => some ({ p1 with rest := r }, [.tok (String.ofList s)])
+      | none => none
+    | .kw s ident =>
+      -- like `Literal`, but the next character must not be an identifier character.  (pyparsing also requires that the
+      -- PREVIOUS character is none: the grammars use keywords only at the start of a statement, where the previous
+      -- character is the start of the text, a line end or skipped whitespace — none is an identifier character.)
+      let p1 := pre ctx p
+      if p1.past then none else
+      match stripPrefix s p1.rest with
+      | some (c :: r) => if ident.contains c then none else some ({ p1 with rest := c :: r }, [.tok (String.ofList s)])
+      | some [] => some ({ p1 with rest := [] }, [.tok (String.ofList s)])
       | none => none
     | .word init body =>
       let p1 := pre ctx p
